@@ -240,6 +240,15 @@ theorem C17_names_check_passes_on_distinct (s : SymRepr) (hnd : ((compFns s).map
     subst this
     simp
 
+/-- the renaming of shadowing parameters (`sympy_to_python_fn`, F-C17-13): as many parameters as arguments, none of them
+    a name the body calls, and nothing changes when no argument is such a name — the call sites are positional, so the
+    references of `C17_codegen_refs_resolve` are unaffected -/
+theorem C17_shadow_rename (called args : List String) :
+    (shadowRename called args).length = args.length ∧
+    (∀ x ∈ shadowRename called args, called.contains x = false) ∧
+    ((∀ a ∈ args, called.contains a = false) → shadowRename called args = args) :=
+  shadowGo_spec called args (args ++ called) (fun c hc => List.mem_append_right _ hc)
+
 /-- **No overwrite happens**: the emitted function names are pairwise distinct, and there is one definition per
     function the representation asks for (initial assignments, derived quantities, reactions, computed
     stoichiometries); every definition has pairwise distinct parameters (else the generator raises). -/
